@@ -423,11 +423,17 @@ def _exc_class(e):
 
 
 def run_history(cfg, ops):
-    """Run a whole history from scratch; judge every step; return the record of the LAST step.
+    """Run a whole history from scratch; return the record of the LAST step.
 
-    Returns dict: verdicts {clause: (ok, why, applicable)}, alive (can be extended), sig, info, obs."""
+    cfg["render"]: "every" (default) - the list box is rendered after every operation, as under a main
+    loop; "sparse" - rendered once at the start and then only after the last operation (several
+    operations inside one callback); "cold" - rendered only after the last operation.
+    Returns dict: verdicts {clause: (ok, why, applicable)}, alive (can be extended), sig, info
+    (after the final render), info_pre (before it), obs."""
     CanvasCache.clear()
     wd = World(cfg)
+    mode = cfg.get("render", "every")
+    info_pre = None
     prev_base = None  # decompositions + owner of the previous render (for the click clause)
     last = None
     steps = [None, *ops]
@@ -466,6 +472,10 @@ def run_history(cfg, ops):
         # render, like the screen's copy under a main loop: the canvas cache only holds weak references)
         prev_base = None
         is_last = n == len(steps) - 1
+        if not (is_last or mode == "every" or (n == 0 and mode == "sparse")):
+            continue
+        if is_last:
+            info_pre = state_info(wd)
         before_press = not is_last and steps[n + 1][0] == "click" and steps[n + 1][1] == 1
         try:
             canv = wd.lb.render(wd.size, wd.focus)
@@ -512,7 +522,7 @@ def run_history(cfg, ops):
         obs["list_rows"] = [r.decode() for r in C]
         if base:
             prev_base = (base, owner, wd.size)
-        last = {"verdicts": v, "alive": True, "sig": wd.signature(R, cursor), "info": state_info(wd), "obs": obs}
+        last = {"verdicts": v, "alive": True, "sig": wd.signature(R, cursor), "info": state_info(wd), "info_pre": info_pre, "obs": obs}
     return last
 
 
@@ -644,8 +654,44 @@ def explore(task):
         return _explore(task)
 
 
+def _explore_unrendered(task):
+    """cfg["render"] in ("sparse", "cold"): every history of <= depth operations with no render in between
+    (plain enumeration: the state before the final render is what gets extended, nothing is merged)."""
+    cfg, depth, opts = task[:3]
+    tally = Tally()
+    root = run_history(cfg, [])
+    record(tally, cfg, [], root)
+    tally.steps += 1
+    frontier = [([], root["info_pre"])] if root["alive"] else []
+    for d in range(depth):
+        nxt = []
+        for hist, info in frontier:
+            for op in gen_ops(info, d, opts):
+                h = [*hist, op]
+                res = run_history(cfg, h)
+                tally.steps += len(h) + 1
+                record(tally, cfg, h, res)
+                tally.states += 1
+                # extend unless an OPERATION raised (a failing final render does not affect the unrendered prefix)
+                if d + 1 < depth and res["verdicts"].get("event-no-raise", (True,))[0]:
+                    nxt.append((h, res["info_pre"] if res["alive"] else _info_unrendered(cfg, h)))
+        frontier = nxt
+    return tally
+
+
+def _info_unrendered(cfg, ops):
+    wd = World(cfg)
+    if cfg.get("render") == "sparse":
+        wd.lb.render(wd.size, wd.focus)
+    for op in ops:
+        wd.apply(op)
+    return state_info(wd)
+
+
 def _explore(task):
     cfg, depth, opts = task[:3]
+    if cfg.get("render", "every") != "every":
+        return _explore_unrendered(task)
     part, nparts = task[4] if len(task) > 4 else (0, 1)  # big tasks are split by the first operation
     tally = Tally()
     root = run_history(cfg, [])
@@ -682,8 +728,11 @@ ALL_KINDS = ["t1", "t3", "t7", "tw", "s1", "s3", "s7", "sw", "z0", "zs", "e1.1",
 LABELS = "abcdefgh"
 
 
-def _cfg(kinds, size, walker, focus=True):
-    return {"items": [[k, LABELS[i]] for i, k in enumerate(kinds)], "size": list(size), "walker": walker, "focus": focus}
+def _cfg(kinds, size, walker, focus=True, render="every"):
+    c = {"items": [[k, LABELS[i]] for i, k in enumerate(kinds)], "size": list(size), "walker": walker, "focus": focus}
+    if render != "every":
+        c["render"] = render
+    return c
 
 
 # lists chosen to cover: empty; single items of every family; unselectable heads / tails around
@@ -745,6 +794,16 @@ def tasks_for(tier):
             else:
                 tasks.append((_cfg(ks, [(3, 2), (3, 4), (3, 1), (9, 3)][j % 4], WALKERS[j % 3]), 2, full, 7))
             j += 1
+    # 2b. several operations between two renders ("sparse": rendered once, then only at the end; "cold": only at the end)
+    for j, kinds in enumerate(CURATED):
+        if quick and j % 3:
+            continue
+        for wi, w in enumerate(WALKERS if not quick else [WALKERS[(j // 3) % 3]]):
+            mode = "cold" if (j + wi) % 4 == 0 else "sparse"
+            tasks.append((_cfg(kinds, SIZES_QUICK[(j + wi) % 5], w, True, mode), 2, full, 12))
+    if not quick:
+        for j, kinds in enumerate(CURATED[2::6]):
+            tasks.append((_cfg(kinds, (3, 2 + j % 3), WALKERS[j % 3], True, "sparse"), 3, DEEP_OPTS, 200))
     # 3. deeper histories on the reduced alphabet
     deep_lists = CURATED[12::10] if quick else [CURATED[i] for i in (14, 26, 27, 39, 45)]
     for j, kinds in enumerate(deep_lists):
